@@ -10,9 +10,11 @@ import (
 	"os/exec"
 	"path/filepath"
 	"regexp"
+	"runtime"
 	"sort"
 	"strings"
 	"testing"
+	"time"
 
 	"github.com/martian-lang/martian/martian/core"
 	"pgregory.net/rapid"
@@ -53,7 +55,7 @@ func newCase(t *rapid.T, root, tag string, prog *mrogen.Program, prop string) (*
 		cleanup()
 		t.Fatalf("GENERATOR: the program cannot be invoked: %v\n%s", err, src)
 	}
-	rc := &runCase{prog: prog, src: src, model: model, sim: sim}
+	rc := &runCase{prog: prog, src: src, model: model, sim: sim, baseG: runtime.NumGoroutine()}
 	ix := indexModel(model)
 	ix.trueDeps = refsem.TrueDeps(prog, &opts.StageOpts, model)
 	return rc, ix, dir, func() {
@@ -76,6 +78,18 @@ func finalOutsCheck(t *rapid.T, rc *runCase, prop string) {
 // the surviving jobs of the old one.
 func (rc *runCase) reattach(t *rapid.T, prop string, survivors []*simrun.Job) {
 	old := rc.sim
+	// the abandoned Pipestance object stands for a dead process: let the
+	// goroutines it started (asynchronous VDR passes) run out before anything
+	// else touches the directory
+	waited := 0
+	for ; waited < 150; waited++ {
+		runtime.Gosched()
+		time.Sleep(time.Millisecond)
+		if waited >= 2 && runtime.NumGoroutine() <= rc.baseG {
+			break
+		}
+	}
+	stats.Count(prop, "reattach_wait_ms", int64(waited))
 	ns, err := simrun.Reattach(old)
 	if err != nil {
 		fail(t, prop, "reattach-refused", "restarting on the same directory with the same invocation failed: %v\n%s", err, rc.describe())
@@ -182,10 +196,22 @@ func normPaths(v any, psDir string) any {
 // finished without mrp having noticed, or still alive), the stale lock is
 // removed, and a new Pipestance is attached to the directory.
 func TestInterrupt(t *testing.T) {
+	interruptTest(t, "C05", []string{"queued", "dead-running", "dead-after-outs", "killed-with-error", "finished-unnoticed", "alive"})
+}
+
+// TestStaleAttempt: C11 - a job whose attempt was reset at a restart is still
+// alive after all and reports its completion later, under the journal name of
+// the old attempt; that notification must not count for the new attempt.
+func TestStaleAttempt(t *testing.T) {
+	interruptTest(t, "C11", []string{"zombie", "zombie", "dead-running", "finished-unnoticed", "queued"})
+}
+
+func interruptTest(t *testing.T, PROP string, fateChoices []string) {
 	root := workRoot(t)
-	// whatever goes wrong in a run that was interrupted is a C05 matter
-	// (stalls, wrong arguments after the restart, ...)
-	propOverride = "C05"
+	// whatever goes wrong in a run that was interrupted belongs to the
+	// property the test is run for (stalls, wrong arguments after the
+	// restart, ...)
+	propOverride = PROP
 	defer func() { propOverride = "" }()
 	rapid.Check(t, func(t *rapid.T) {
 		defer func() {
@@ -199,13 +225,14 @@ func TestInterrupt(t *testing.T) {
 		for k := range excluded {
 			delete(excluded, k)
 		}
-		rc, ix, _, done := newCase(t, root, "intr", prog, "C05")
+		rc, ix, _, done := newCase(t, root, "intr", prog, PROP)
 		if rc == nil {
 			return
 		}
 		defer done()
 		rc.persist = "C05/mrp-aborts-after-restart"
 		defer stats.InflightDone()
+		var zombies []*simrun.Job
 		maxCrashes := rapid.IntRange(1, 3).Draw(t, "crashes")
 		crashes := 0
 		completedBefore := map[string]bool{}
@@ -213,10 +240,19 @@ func TestInterrupt(t *testing.T) {
 		inside := false
 		rc.onSubmit = func(j *simrun.Job) {
 			if completedBefore[j.Identity()] {
-				fail(t, "C05", "completed-job-executed-again", "job %s is executed again although its completion had been recorded before the interruption\n%s", j, rc.describe())
+				fail(t, PROP, "completed-job-executed-again", "job %s is executed again although its completion had been recorded before the interruption\n%s", j, rc.describe())
 			}
 		}
 		rc.intervene = func() core.MetadataState {
+			if len(zombies) > 0 && crashes > 0 && rapid.IntRange(0, 2).Draw(t, "zombieReports") == 0 {
+				z := zombies[0]
+				zombies = zombies[1:]
+				if err := rc.sim.StaleFinish(z); err != nil {
+					t.Fatalf("INFRA: %v", err)
+				}
+				fates["zombie-reported"]++
+				rc.logf("stale: the old attempt of %s reports its completion now", z)
+			}
 			if crashes >= maxCrashes || rapid.IntRange(0, 2).Draw(t, "crashNow") != 0 {
 				return ""
 			}
@@ -237,7 +273,7 @@ func TestInterrupt(t *testing.T) {
 			}
 			var survivors []*simrun.Job
 			for _, j := range pending {
-				fate := rapid.SampledFrom([]string{"queued", "dead-running", "dead-after-outs", "killed-with-error", "finished-unnoticed", "alive"}).Draw(t, "fate")
+				fate := rapid.SampledFrom(fateChoices).Draw(t, "fate")
 				if j.Started && fate == "queued" {
 					fate = "alive"
 				}
@@ -280,6 +316,12 @@ func TestInterrupt(t *testing.T) {
 						err = sim.StartWithPid(j, os.Getpid())
 					}
 					survivors = append(survivors, j)
+				case "zombie":
+					// looks dead to the restarted mrp (the pid it recorded
+					// is gone), is reset and re-run, but reports its
+					// completion later under the old attempt's name
+					err = sim.StartWithPid(j, simrun.DeadPid())
+					zombies = append(zombies, j)
 				}
 				if err != nil {
 					t.Fatalf("INFRA: %v", err)
@@ -292,17 +334,25 @@ func TestInterrupt(t *testing.T) {
 			}
 			rc.logf("interrupt #%d: mrp is gone (%d jobs finished, %d pending); stale lock removed, restarting", crashes, nDone, len(pending))
 			if !sim.Locked() {
-				fail(t, "C05", "not-locked-while-running", "the pipestance directory holds no _lock while a pipestance object is attached\n%s", rc.describe())
+				fail(t, PROP, "not-locked-while-running", "the pipestance directory holds no _lock while a pipestance object is attached\n%s", rc.describe())
 			}
 			sim.RemoveLock()
-			rc.reattach(t, "C05", survivors)
+			if len(zombies) > 0 {
+				// the name of an attempt is the low bits of mrp's pid and of
+				// the time in seconds: a restarted mrp is another process,
+				// which this harness cannot be; it restarts in another second
+				for sec := time.Now().Unix(); time.Now().Unix() == sec; {
+					time.Sleep(5 * time.Millisecond)
+				}
+			}
+			rc.reattach(t, PROP, survivors)
 			return ""
 		}
 		st := rc.drive(t, ix)
 		if st != core.Complete && st != core.DisabledState {
-			fail(t, "C05", "restart-does-not-complete", "after %d interruption(s) the pipestance ends %q: %s\n%s", crashes, st, rc.sim.FatalError(), rc.describe())
+			fail(t, PROP, "restart-does-not-complete", "after %d interruption(s) the pipestance ends %q: %s\n%s", crashes, st, rc.sim.FatalError(), rc.describe())
 		}
-		finalOutsCheck(t, rc, "C05")
+		finalOutsCheck(t, rc, PROP)
 		// interruption between / after the final cleanup passes: the record
 		// left behind must be the one an undisturbed run leaves
 		switch rapid.SampledFrom([]string{"none", "after-vdr", "after-postprocess"}).Draw(t, "crashDuringCleanup") {
@@ -310,12 +360,12 @@ func TestInterrupt(t *testing.T) {
 			rc.sim.FinalVDR()
 			rc.logf("interrupt: mrp is gone after the final VDR pass")
 			rc.sim.RemoveLock()
-			rc.reattach(t, "C05", nil)
+			rc.reattach(t, PROP, nil)
 			// (forks of disabled map calls may only be expanded now: the
 			// scheduler needs a few rounds, but must not run any job)
 			crashes = maxCrashes
 			if st := rc.drive(t, ix); st != core.Complete && st != core.DisabledState {
-				fail(t, "C05", "complete-pipestance-not-complete-after-restart", "state %q; forks without _complete:\n  %s\n%s", st, incompleteForks(rc.sim.Dir), rc.describe())
+				fail(t, PROP, "complete-pipestance-not-complete-after-restart", "state %q; forks without _complete:\n  %s\n%s", st, incompleteForks(rc.sim.Dir), rc.describe())
 			}
 			fates["during-cleanup"]++
 		case "after-postprocess":
@@ -323,26 +373,26 @@ func TestInterrupt(t *testing.T) {
 			rc.sim.PS.PostProcess()
 			rc.logf("interrupt: mrp is gone after post-processing")
 			rc.sim.RemoveLock()
-			rc.reattach(t, "C05", nil)
+			rc.reattach(t, PROP, nil)
 			// (forks of disabled map calls may only be expanded now: the
 			// scheduler needs a few rounds, but must not run any job)
 			crashes = maxCrashes
 			if st := rc.drive(t, ix); st != core.Complete && st != core.DisabledState {
-				fail(t, "C05", "complete-pipestance-not-complete-after-restart", "state %q; forks without _complete:\n  %s\n%s", st, incompleteForks(rc.sim.Dir), rc.describe())
+				fail(t, PROP, "complete-pipestance-not-complete-after-restart", "state %q; forks without _complete:\n  %s\n%s", st, incompleteForks(rc.sim.Dir), rc.describe())
 			}
 			fates["after-cleanup"]++
 		}
 		rc.sim.Cleanup()
 		post, err := rc.sim.TopOuts()
 		if err != nil {
-			fail(t, "C05", "top-outs-unreadable", "after the final cleanup: %v\n%s", err, rc.describe())
+			fail(t, PROP, "top-outs-unreadable", "after the final cleanup: %v\n%s", err, rc.describe())
 		}
 		ref, err := referenceRun(prog, rc.src, rc.sim.Dir+"-ref", rc.sim.Opts)
 		if err != nil {
 			t.Fatalf("INFRA: reference run: %v", err)
 		}
 		if a, b := normPaths(post, rc.sim.Dir), normPaths(ref, rc.sim.Dir+"-ref/ps"); !jsonx.Equal(a, b, true) {
-			fail(t, "C05", "final-record-differs", "the outputs record left after the final cleanup differs from that of an undisturbed run\n  interrupted: %s\n  undisturbed: %s\n%s", jsonx.Marshal(a), jsonx.Marshal(b), rc.describe())
+			fail(t, PROP, "final-record-differs", "the outputs record left after the final cleanup differs from that of an undisturbed run\n  interrupted: %s\n  undisturbed: %s\n%s", jsonx.Marshal(a), jsonx.Marshal(b), rc.describe())
 		}
 		var cl []string
 		for f := range fates {
@@ -353,7 +403,7 @@ func TestInterrupt(t *testing.T) {
 		if inside {
 			cl = append(cl, "inside-run")
 		}
-		stats.Case("C05", inside, stats.Digest(rc.src, strings.Join(rc.history, "|")), cl, func() any {
+		stats.Case(PROP, inside, stats.Digest(rc.src, strings.Join(rc.history, "|")), cl, func() any {
 			return map[string]any{"program": stats.Trunc(rc.src, 1200), "interruptions": crashes, "schedule": stats.Trunc(strings.Join(rc.history, "; "), 800)}
 		})
 	})
